@@ -7,10 +7,6 @@ From SC Require Import C17.Spec C17.ProofsSum C17.ProofsQuad.
 Import ListNotations.
 Local Open Scope R_scope.
 
-Definition right_inverse (n : nat) (S T : list (list R)) : Prop :=
-  forall i j, (i < n)%nat -> (j < n)%nat ->
-    sigma n (fun k => entry S i k * entry T k j) = if Nat.eqb i j then 1 else 0.
-
 Lemma sigma_delta' n i (f : nat -> R) : (i < n)%nat ->
   sigma n (fun l => (if Nat.eqb i l then 1 else 0) * f l) = f i.
 Proof.
